@@ -122,6 +122,22 @@ def tableOracle (tab : List OrcEntry) : FindLink.Oracle := fun _ pos =>
   | some e => e.cands
   | none => []
 
+/-- is the optimum of one of the sub-problems that `flAlgoStep` itself solves (group by group, each
+with the features added so far) not unique?  On a step where an added feature is also in range of a
+source of another group (`local=0`) these are NOT the groups of the emitted level, so
+`Linker.stepTied` on the emitted level does not see such a tie.  Driver statistic. -/
+def flTied (cfg : TrackpyV.Linker.Cfg) (st : TrackpyV.Linker.State) (t : Int)
+    (orc : TrackpyV.FindLink.Oracle) (dsts : List TrackpyV.Linker.Pos) : Bool :=
+  open TrackpyV.Linker TrackpyV.FindLink TrackpyV.Assign in
+  ((flGroups cfg st t dsts).foldl (fun (acc : Acc × Bool) g =>
+      let a' := processGroup cfg st t orc dsts.length acc.1 g
+      let ss := g.1.map (fcands cfg st t dsts.length acc.1.lvl.length a'.lvl)
+      let tied := if ss.isEmpty then false
+        else if (ss.map List.length).foldl (· * ·) 1 > 50000 then true
+        else countOptimal ss != 1
+      (a', acc.2 || tied))
+    ({ lvl := dsts, masses := [], choices := [] }, false)).2
+
 open TrackpyV.Linker TrackpyV.FindLink in
 def handleFLStep (rest : String) : String :=
   match splitKeep rest ";" with
@@ -159,7 +175,7 @@ def handleFLStep (rest : String) : String :=
                 | none => "bad")
               | none => "unparsed"
             | _ => "-"
-          s!"ok dsts={showIPts out.dsts} added={showNatList out.added} labels={showNatList out.labels} fresh={freshBase st} miss={miss} unused={unused} tied={b (stepTied cfg st t out.dsts)} capped={b (cappedB cfg st t out.dsts)} oversize={b (oversizeB cfg (stepGroups cfg st t out.dsts) || gs.any (fun g => decide (g.1.length > cfg.maxSize)))} groups={gs.length} short={(gs.filter short).length} merged={g1.length - gs.length} local={b (addedLocalB cfg st t gs dsts.length out.dsts)} lostonly={b lostOnly} implopt={implopt}"
+          s!"ok dsts={showIPts out.dsts} added={showNatList out.added} labels={showNatList out.labels} fresh={freshBase st} miss={miss} unused={unused} tied={b (stepTied cfg st t out.dsts || flTied cfg st t orc dsts)} capped={b (cappedB cfg st t out.dsts)} oversize={b (oversizeB cfg (stepGroups cfg st t out.dsts) || gs.any (fun g => decide (g.1.length > cfg.maxSize)))} groups={gs.length} short={(gs.filter short).length} merged={g1.length - gs.length} local={b (addedLocalB cfg st t gs dsts.length out.dsts)} lostonly={b lostOnly} implopt={implopt}"
         | _, _ => "bad-op"
       | _ => "bad-op"
     | _, _, _, _ => "bad-op"
